@@ -410,6 +410,123 @@ def h_gcp_write(kind):
 
 
 
+class _Arr:
+    """pixel payload stand-in (the warp itself is GDAL's): only its shape and dtype are observable"""
+
+    def __init__(self, shape, dtype="uint8"):
+        self.shape, self.dtype = tuple(shape), dtype
+
+
+class DAN(DA):
+    """N-d container with a payload of known shape and the .odc accessor of the real library"""
+
+    def __init__(self, data=None, coords=None, dims=(), attrs=None, name=None):
+        DA.__init__(self, data, coords, dims, attrs, name)
+
+    @property
+    def shape(self):
+        return self.values.shape
+
+    @property
+    def dtype(self):
+        return self.values.dtype
+
+    @property
+    def data(self):
+        return self.values
+
+    @property
+    def odc(self):
+        import odc.geo._xr_interop as xr
+
+        return xr.ODCExtensionDa(self)
+
+
+def h_reproject_assembly(crs_name, dst_crs):
+    """_xr_reproject_da with the warp stubbed: the output's recovered GeoBox equals the requested
+    destination GeoBox (shape, CRS, all six coefficients) -- also after an operation that drops
+    the encoding (arithmetic) --, exactly one CRS coordinate remains, coordinates over the old
+    spatial dims are gone, other coordinates and dims are kept, stale spatial attributes pruned"""
+    import odc.geo._xr_interop as xr
+    import odc.geo.geobox as gbx
+    from affine import Affine
+
+    from .. import npmodel
+
+    ny, nx = Int("ny", 2), Int("nx", 2)
+    my, mx = Int("my", 2), Int("mx", 2)
+    sa, se = Real("sa"), Real("se")
+    da_, de = Real("da"), Real("de")
+    assume(And(sa != 0, se != 0, da_ != 0, de != 0))
+    src_g = gbx.GeoBox((ny, nx), Affine(sa, 0.0, Real("sc"), 0.0, se, Real("sf")), "epsg:3857")
+    dst_g = gbx.GeoBox((my, mx), Affine(da_, 0.0, Real("dc"), 0.0, de, Real("df")), dst_crs)
+    conc = symx.concrete_mode()
+    if conc:
+        import numpy as np
+        import xarray
+
+        coords = xr.xr_coords(src_g, crs_coord_name=crs_name)
+        src = xarray.DataArray(np.zeros((2, ny, nx), dtype="uint8"), coords={**coords, "time": [10, 20], "tag": "v1"}, dims=("time", "y", "x"),
+                               attrs={"units": "m", "crs": "EPSG:3857", "epsg": 3857, "grid_mapping": crs_name})
+        src = src.assign_coords(cell=(("y", "x"), np.zeros((ny, nx))))
+        src.encoding["grid_mapping"] = crs_name
+        out = xr._xr_reproject_da(src, dst_g)
+        out2 = out + 1  # arithmetic drops the encoding
+        for nm, o in (("direct", out), ("after_arithmetic", out2)):
+            gb = o.odc.geobox
+            prove(f"{nm}:geobox_is_the_destination", gb is not None and gb.shape == dst_g.shape and gb.crs == dst_g.crs and gb.affine.almost_equals(dst_g.affine, 1e-6 * max(1.0, abs(dst_g.affine.c), abs(dst_g.affine.f))))
+        prove("old_spatial_coordinate_dropped", "cell" not in out.coords)
+        prove("other_coordinates_kept", "time" in out.coords and "tag" in out.coords)
+        prove("stale_attributes_pruned", not ({"crs", "epsg", "grid_mapping"} & set(out.attrs)) and out.attrs.get("units") == "m")
+        return
+    coords = xr.xr_coords(src_g, crs_coord_name=crs_name)
+    coords["time"] = DA([10, 20], dims=("time",), name="time")
+    coords["tag"] = DA("v1", dims=(), name="tag")
+    coords["cell"] = DA(None, dims=("y", "x"), name="cell")
+    src = DAN(_Arr((2, ny, nx)), coords=coords, dims=("time", "y", "x"), attrs={"units": "m", "crs": "EPSG:3857", "epsg": 3857, "grid_mapping": crs_name})
+    src.encoding["grid_mapping"] = crs_name
+    saved = (xr.rio_reproject, npmodel.NP.__dict__.get("empty"))
+    calls = []
+
+    def fake_warp(src_values, dst, s_gbox, d_gbox, **kw):
+        calls.append((s_gbox, d_gbox, kw))
+        return dst
+
+    xr.rio_reproject = fake_warp
+    npmodel.NP.empty = staticmethod(lambda shape, dtype=None: _Arr(shape, dtype))
+    saved_da = FakeXarray.DataArray
+    FakeXarray.DataArray = DAN
+    try:
+        out = xr._xr_reproject_da(src, dst_g)
+    finally:
+        xr.rio_reproject = saved[0]
+        FakeXarray.DataArray = saved_da
+        if saved[1] is None:
+            del npmodel.NP.empty
+        else:
+            npmodel.NP.empty = saved[1]
+    prove("warped_once_between_the_two_geoboxes", len(calls) == 1 and calls[0][1] is dst_g and calls[0][2].get("ydim") == 1)
+    sg = calls[0][0]
+    prove("warp_source_geobox", And(sg.shape.y == ny, sg.shape.x == nx, sg.crs == src_g.crs, sg.affine.a == sa, sg.affine.e == se, sg.affine.c == src_g.affine.c, sg.affine.f == src_g.affine.f))
+    ydim_n, xdim_n = dst_g.dimensions
+    prove("dims", out.dims == ("time", ydim_n, xdim_n))
+    prove("payload_shape", And(len(out.values.shape) == 3, out.values.shape[0] == 2, out.values.shape[1] == my, out.values.shape[2] == mx))
+    arith = DAN(out.values, coords=dict(out.coords), dims=out.dims, attrs=dict(out.attrs))  # encoding dropped
+    for nm, o in (("direct", out), ("after_arithmetic", arith)):
+        st = xr._locate_geo_info(o)
+        gb = st.geobox
+        prove(f"{nm}:geobox_recovered", gb is not None)
+        if gb is None:
+            continue
+        A, B_ = dst_g.affine, gb.affine
+        prove(f"{nm}:geobox_is_the_destination", And(gb.shape.y == my, gb.shape.x == mx, gb.crs == dst_g.crs, B_.a == A.a, B_.b == A.b, B_.c == A.c, B_.d == A.d, B_.e == A.e, B_.f == A.f))
+        prove(f"{nm}:exactly_one_crs_coordinate", len([c_ for c_ in o.coords.values() if xr._is_spatial_ref(c_)]) == 1)
+    prove("old_spatial_coordinate_dropped", "cell" not in out.coords)
+    prove("other_coordinates_kept", "time" in out.coords and "tag" in out.coords)
+    prove("stale_attributes_pruned", not ({"crs", "epsg", "grid_mapping"} & set(out.attrs)) and out.attrs.get("units") == "m")
+
+
+
 SL_Q = [dict(yn=3, yk=1, xn=4, xk=1), dict(yn=2, yk=2, xn=5, xk=-1), dict(yn=7, yk=-3, xn=2, xk=2)]
 SL_T = SL_Q + [dict(yn=a, yk=b, xn=c, xk=d) for a, b, c, d in ((2, 1, 2, 1), (100, 1, 50, 2), (3, -1, 3, -1), (5, 4, 9, -2), (1000, 3, 2, 7))]
 
@@ -431,6 +548,11 @@ OBLIGATIONS = [
        descr="GCPGeoBox.gcps(): written (col,row) are in this GeoBox's own pixel frame (internal affine applied gives back the control point's pixel position); world side unchanged; ids in order",
        functions=("odc.geo.gcp.GCPGeoBox.gcps",), bounds="3 symbolic control points; internal affine: translation / translation x scale / any invertible affine",
        stubs=("rasterio GroundControlPoint record", "control-point multipoints as vertex lists"), setup=setup, fresh_only=True),
+    Ob("X6_reproject_assembly", h_reproject_assembly, fixed(dict(crs_name="spatial_ref", dst_crs="epsg:32633"), dict(crs_name="crs", dst_crs="epsg:32633"), dict(crs_name="crs", dst_crs="epsg:4326")),
+       descr="_xr_reproject_da output assembly (warp stubbed): recovered GeoBox == requested destination (also once the encoding is gone), one CRS coordinate, old spatial coordinates dropped, others kept, stale attributes pruned",
+       functions=("odc.geo._xr_interop._xr_reproject_da", "odc.geo._xr_interop.xr_coords", "odc.geo._xr_interop._locate_geo_info", "odc.geo._xr_interop._locate_crs_coords"),
+       bounds="source and destination GeoBoxes axis-aligned with symbolic coefficients and shapes (>= 2); leading time axis; CRS coordinate named spatial_ref or crs",
+       stubs=("rio_reproject (GDAL warp) recorder", "passive xarray container"), setup=setup),
     Ob("X4_gcp_pixel_labels", h_gcp_pixel_labels, tiered(SL_Q[:2] + [dict(yn=1, yk=1, xn=3, xk=1), dict(yn=4, yk=2, xn=1, xk=1), dict(yn=1, yk=1, xn=1, xk=1)], SL_T[:5] + [dict(yn=1, yk=1, xn=3, xk=1), dict(yn=4, yk=2, xn=1, xk=1), dict(yn=1, yk=1, xn=1, xk=1), dict(yn=1, yk=1, xn=5, xk=-2)]), descr="GCP GeoBox pixel labels: the crop/stride affine is recovered from the labels", functions=("odc.geo._xr_interop._mk_pixel_coord", "odc.geo._xr_interop._extract_transform"),
        stubs=("passive xarray container", "LinSeq"), setup=setup),
 ]
